@@ -1,4 +1,5 @@
 import EaselModel.Random.Lemmas
+import EaselModel.Random.Choose
 /-! # C09 — property theorems (statements + glue only; lemmas live in Random/*.lean)
 
 Every theorem quantifies over all seeds / all stream positions / all states; none is bounded. -/
@@ -99,6 +100,14 @@ theorem deal_spec (r : Rng) (m n : Nat) (h : m ≤ n) :
     let out := (r.deal m n).1
     out.length = m ∧ (∀ a ∈ out, a < n) ∧ out.Pairwise (· < ·) :=
   dealLoop_spec n m (n+1) 0 0 r [] (by omega) (by omega) (by omega) (by omega) rfl (by simp) List.Pairwise.nil
+
+/-- a categorical choice returns an index of non-zero probability — for any floating type in which `x + 0 = x`
+    and for any roll that is not below `0/norm` (true of `esl_random ∈ [0,1)`); the loop mirrors `esl_rnd_DChoose` -/
+theorem dchoose_nonzero {F : Type} [FOps F] (hadd : ∀ x : F, FOps.add x FOps.zero = x) (roll : F) (p : List F)
+    (hroll : FOps.lt roll (FOps.div FOps.zero (p.foldl FOps.add FOps.zero)) = false)
+    (r : Nat) (h : dchoose roll p = some r) : ∃ q, p[r]? = some q ∧ q ≠ FOps.zero := by
+  obtain ⟨_, q, hq, hne⟩ := chooseGo_nonzero hadd roll _ p FOps.zero 0 hroll r h
+  exact ⟨q, by simpa using hq, hne⟩
 
 /-! non-vacuity -/
 example : (0 : Nat) < 6 ∧ 6 < 2^32 ∧ 3 < 6 := by decide
